@@ -251,6 +251,8 @@ def w_normalisers(ctx, rng, i):
     C = int(rng.integers(1, 5))
     dtype = [np.float64, np.float32][rng.integers(0, 2) if rng.random() < 0.3 else 0]
     shp = (int(rng.integers(2, 30)), int(rng.integers(2, 30)))
+    if rng.random() < 0.25:
+        shp = tuple(int(v) for v in rng.integers(2, 9, 3))        # the normalisers are documented for (C, X, Y, ..., Z) data
     im = make_image(rng, "MaskedImage" if cls == "MaskedImage" else "Image", shp, C, dtype, mk, constant=const)
     faint = None
     if dtype == np.float64 and const is None and rng.random() < 0.5:
@@ -324,7 +326,7 @@ def w_normalisers(ctx, rng, i):
                 a = np.asarray(again if cls == "array" else again.pixels)
                 if _amax(a - out) > max(tol, 1e-7) * scale * 10:
                     ctx.fail("second_application_changes_the_result", cls=key)
-    ctx.count_case(("normaliser", fname, mode, cls, const, err, np.dtype(dtype).name, faint is not None), nontrivial=True,
+    ctx.count_case(("normaliser", fname, mode, cls, const, err, np.dtype(dtype).name, faint is not None, len(shp)), nontrivial=True,
                    sample={"feature": fname, "mode": mode, "input": cls, "constant": const, "error_on_divide_by_zero": err} if i < 6 else None)
 
 
